@@ -414,7 +414,7 @@ func (e *Engine) scanGlobals() {
 							}
 						case *ssa.Slice:
 							// a slice of a global may be passed around; treat as escaping unless element reads only
-							if !isInit && sliceEscapes(u) {
+							if !isInit && sliceEscapes(e, u) {
 								written[g] = true
 							}
 							continue
@@ -448,7 +448,7 @@ func (e *Engine) scanGlobals() {
 	}
 }
 
-func sliceEscapes(s *ssa.Slice) bool {
+func sliceEscapes(e *Engine, s *ssa.Slice) bool {
 	refs := s.Referrers()
 	if refs == nil {
 		return true
@@ -463,6 +463,9 @@ func sliceEscapes(s *ssa.Slice) bool {
 			if b, ok := r.Call.Value.(*ssa.Builtin); ok && b.Name() == "copy" && r.Call.Args[1] == ssa.Value(s) && r.Call.Args[0] != ssa.Value(s) {
 				continue
 			}
+			if callReadsOnly(e, r, s) {
+				continue
+			}
 			return true
 		default:
 			return true
@@ -475,6 +478,19 @@ func callReadsOnly(e *Engine, c *ssa.Call, arg ssa.Value) bool {
 	f := c.Call.StaticCallee()
 	if f == nil {
 		return false
+	}
+	if f.Pkg != nil {
+		switch f.Pkg.Pkg.Path() {
+		case "encoding/binary":
+			if strings.HasPrefix(f.Name(), "Uint") {
+				return true
+			}
+		case "bytes", "crypto/subtle":
+			switch f.Name() {
+			case "Equal", "ConstantTimeCompare", "Compare":
+				return true
+			}
+		}
 	}
 	for i, a := range c.Call.Args {
 		if a != arg {
